@@ -297,7 +297,7 @@ func runLinCase(c *fw.Ctx, r *fw.Rand, in linInput, id string) {
 	close(start)
 	wg.Wait()
 	if len(blocks) > 0 {
-		if u.waitHead(blocks[len(blocks)-1]) == nil {
+		if _, followed := u.waitHead(blocks[len(blocks)-1], true); !followed {
 			return
 		}
 		c.Count("lin_runs_with_concurrent_head_events")
